@@ -1,5 +1,7 @@
-"""C12 — constraint matrix, limits and names stay aligned under add/remove/update; the Current
-algebra (sum, difference, scalar multiple) yields the right coefficients."""
+"""C12 — constraint matrix, limits and names stay aligned under add/remove/update — also while the network is
+READ between the edits (feasibility questions, aggregate currents, views, a running simulation) and SAVED AND
+RESUMED (JSON, deepcopy); the Current algebra (sum, difference, scalar multiple) yields the right coefficients.
+Lean: AcnModel/Network.lean + AcnModel/NetworkUse.lean (model), Drivers/C12.lean, AcnProofs/C12.lean."""
 from __future__ import annotations
 
 import copy
@@ -22,6 +24,8 @@ REQUIRED_THEOREMS = [
     "Acn.C12.update_failure_is_removal", "Acn.C12.row_entry", "Acn.C12.constructors_keys_nodup",
     "Acn.C12.full_net_projects", "Acn.C12.reachable_feas_wf", "Acn.C12.reachable_three_agree",
     "Acn.C12.reregistration_breaks_wf", "Acn.C12.full_query", "Acn.C12.reregistered_query_fails",
+    "Acn.C12.resume_eq", "Acn.C12.history_with_uses", "Acn.C12.history_with_uses_aligned",
+    "Acn.C12.use_feasible_eq_feas",
 ]
 BUDGET = {"quick": 700, "thorough": 7000, "search": 4000}
 TRUSTED = [
@@ -30,6 +34,9 @@ TRUSTED = [
     "DataFrame(matrix, columns, index) round trip",
     "numpy: append / delete(axis=0) / fancy row and column indexing / @ (all phase angles 0, linear=False)",
     "Python dict insertion order for _EVSEs; list.index / list.remove act on the first occurrence",
+    "the JSON text layer of a save/resume (json.dumps / json.loads keep the key order of an object, NpEncoder "
+    "writes arrays as nested lists); the model resumes from the attribute dictionary (UNet.toDict / fromDict); "
+    "copy.deepcopy",
 ]
 ASSUMPTIONS = [
     "theorems are over an arbitrary field (coefficient identities) / any carrier with 0 (alignment); the "
@@ -37,31 +44,57 @@ ASSUMPTIONS = [
     "dyadic so the arithmetic is exact)",
     "coefficients, scalars and limits are finite (no NaN/inf operands)",
     "Currents are built by the class's constructors and operators (distinct keys)",
-    "constraint_current is exercised with linear=False, the network's own phase angles (cos/sin as numpy computes "
-    "them are inputs of the model), on networks with at least one station and a rectangular schedule; the linear "
-    "mode and the feasibility decision belong to C06",
+    "constraint_current is exercised in both modes with the network's own phase angles (cos/sin as numpy computes "
+    "them are inputs of the model), on networks with at least one station and a rectangular schedule",
+    "feasibility questions between the edits (ChargingNetwork.is_feasible, Interface.is_feasible, "
+    "infrastructure_constraints_feasible on Interface.infrastructure_info()) are asked on networks with at least one "
+    "station and rectangular schedules; their ANSWERS are C06's subject (here: compared with the model = "
+    "Feas.netFeasible / netLinear / algFeasible2 / algLinear2 on the network's containers, and with an exact "
+    "rational evaluation of the limits GIVEN to add/update_constraint; abstaining within 1e-8 of the edge); what "
+    "C12 asks of them is that they leave stations / matrix / limits / names / phase angles / voltages / tolerances "
+    "exactly (bitwise) as they were",
+    "what a simulation run raises is not judged (scheduler and EVSE business); only that the run leaves the "
+    "containers exactly as they were.  EVs left plugged in by a failed run are unplugged by the harness",
+    "a save/resume happens between operations, never inside a simulation run (C09)",
+    "the model resumes a network whose constraints were all removed with its 0 x N matrix (fixes/F19.diff); on the "
+    "unrepaired tree that resume flattens the matrix to 1-D (finding F19, reported under its own kind; the rest of "
+    "such a history is not judged)",
     "re-registering a registered station id appends to _phase_angles/_voltages but not to the station list "
     "(follows the code): every correctly shaped constraint_current query then raises; Feas.Net.WF (the C06 "
     "hypothesis) is proved for all histories WITHOUT re-registration and refuted with it",
     "update_constraint is remove-then-add in the code: when the add raises KeyError (unknown station) the "
     "constraint stays removed; the model, the spec and the oracle follow the code (reported as an observation)",
 ]
-RULE = ("per case a history of 3-16 operations on a fresh ChargingNetwork: register_evse (random ids, random order, "
+RULE = ("per case a history of up to 45 operations on a fresh ChargingNetwork (in 25% of the cases built with its own "
+        "violation/relative tolerances, in 50% with finite EVSE limits): register_evse (random ids, random order, "
         "re-registration, after-constraint), add_constraint / update_constraint with a random Current expression tree "
         "(depth <= 4 over +, -, k*., .*k; leaves = list / dict / str / empty Currents over random overlapping station "
         "subsets listed in random order, sometimes an unknown station), explicit / default / duplicate / _v2 names, "
         "remove_constraint (known, unknown, duplicated names), register_evse with random phase angles / voltages incl. "
         "re-registration of a known id, + / - whose operands name the SAME station set in DIFFERENT orders with "
         "non-uniform coefficients, a REJECTED add_constraint in the middle of a history followed by more "
-        "adds/removes/updates, and constraint_current queries (also after re-registration, also one-row schedules "
-        "that numpy broadcasts) with name subsets "
-        "(shuffled, repeated, unknown) and time indices (shuffled, negative, out of range); non-trivial = a composite "
+        "adds/removes/updates, and constraint_current queries in both modes (also after re-registration, also one-row "
+        "schedules that numpy broadcasts) with name subsets "
+        "(shuffled, repeated, unknown) and time indices (shuffled, negative, out of range).  In 80% of the cases the "
+        "network is USED between the edits (0-2 uses after each edit, also before the first constraint): feasibility "
+        "questions (ChargingNetwork.is_feasible / Interface.is_feasible with a dict of loads incl. omitted, unknown "
+        "and unequal-length ones / infrastructure_constraints_feasible on infrastructure_info(); linear and phasor "
+        "mode; default and explicit tolerances incl. 0; wrong-shaped and one-row schedules), Interface views "
+        "(get_constraints, infrastructure_info, evse_phase / evse_voltage, network.phase_angles / voltages), a "
+        "simulation of 1-3 EVs on the live network object (fixed-rate stub, UncontrolledCharging, FCFS, LLF, "
+        "RoundRobin; feasible and infeasible rates), and save/resume round trips (from_json(to_json()) as string and "
+        "as buffer, through a Simulator's JSON, copy.deepcopy) after which the history CONTINUES on the object that "
+        "came back; after EVERY operation (reads included) the full state is observed and must be exactly the "
+        "previous one for a read / resume / refused edit, and the aligned triple is compared station by station with "
+        "the specification; non-trivial = a composite "
         "expression was stored AND (a row was removed/updated from a matrix with >= 2 rows OR a subset query "
-        "selected a proper non-empty subset); distinct by hash of the case.  thorough tier adds an EXHAUSTIVE small "
-        "scope: every history of <= 3 operations over a 16-letter alphabet (3 Currents incl. a composite and one "
-        "over an unknown station x names {None,'x','_const_0'}, 2 removes, 4 updates, register) on 2 and on 3 "
-        "stations, and every history of exactly 4 operations over an 8-letter alphabet on 2 stations (12832 "
-        "histories, each closed by a subset query)")
+        "selected a proper non-empty subset OR the network was used / resumed while it held constraints and edited "
+        "successfully afterwards); distinct by hash of the case.  thorough tier adds an EXHAUSTIVE small "
+        "scope: every history of <= 3 operations over an 18-letter alphabet (3 Currents incl. a composite and one "
+        "over an unknown station x names {None,'x','_const_0'}, 2 removes, 4 updates, register, a feasibility "
+        "question, a JSON save/resume) on 2 and on 3 stations registered in non-lexicographic order, and every "
+        "history of exactly 4 operations over a 10-letter alphabet on 2 stations (22348 histories, each closed by "
+        "a subset query)")
 
 POOL = ["A", "B", "C", "D", "E", "PS-001", "s10", "s9", "_x"]
 UNKNOWN = ["Z", "Q-404"]
@@ -210,6 +243,74 @@ def _gen_query(rng, ids, names):
     return q
 
 
+FEAS_VALS = [0, 1, 2, 4, 6, 8, 16, 0.5, 12.25, 32, 3, 64]
+TOLS = [None, None, None, 1e-5, 0.5, 0.0, 1e-3, 2.0]
+RTOLS = [None, None, None, 1e-7, 0.0, 0.01, 0.25]
+JSON_VIAS = ["str", "str", "str", "buf", "buf", "deepcopy", "sim"]
+
+
+def _gen_feasible(rng, ids):
+    """a READ-ONLY feasibility question: ChargingNetwork.is_feasible, Interface.is_feasible (a dict of loads) or the
+    algorithm-side infrastructure_constraints_feasible on Interface.infrastructure_info(); all tolerance modes"""
+    n = len(ids)
+    T = rng.randint(1, 3)
+    scale = rng.choice([1, 1, 1, 0.25, 4, 0])
+    sched = [[scale * rng.choice(FEAS_VALS) for _ in range(T)] for _ in range(n)]
+    r = rng.random()
+    via = "network" if r < 0.55 else ("interface" if r < 0.85 else "alg")
+    o = {"op": "feasible", "via": via, "sched": sched, "linear": rng.random() < 0.4,
+         "vt": rng.choice(TOLS), "rt": rng.choice(RTOLS)}
+    if via == "interface":
+        loads = [[s_, row] for s_, row in zip(ids, sched) if rng.random() < 0.8]
+        if rng.random() < 0.1:
+            loads.append([rng.choice(UNKNOWN), [1] * T])     # not a station: ignored by the code
+        if loads and rng.random() < 0.05:
+            loads[-1] = [loads[-1][0], loads[-1][1] + [1]]    # unequal lengths
+        rng.shuffle(loads)
+        o["loads"] = loads
+        del o["sched"]
+    else:
+        q = rng.random()
+        if q < 0.04:
+            o["sched"] = sched + [[1] * T]
+        elif q < 0.08 and n >= 2:
+            o["sched"] = sched[:1]
+    return o
+
+
+def _gen_sim(rng, ids):
+    """a short simulation ON the network object: plugs EVs in, asks the network whether each submitted schedule is
+    feasible (Simulator._update_schedules), charges, unplugs"""
+    k = rng.randint(1, min(3, max(1, len(ids))))
+    st = rng.sample(ids, min(k, len(ids))) if ids else []
+    if rng.random() < 0.05:
+        st.append(rng.choice(UNKNOWN))
+    evs = []
+    for s_ in st:
+        a = rng.randint(0, 2)
+        evs.append([s_, a, a + rng.randint(1, 3), rng.choice([0.5, 2.0, 5.0])])
+    return {"op": "sim", "algo": rng.choice(["stub", "stub", "stub", "uncontrolled", "fcfs", "rr", "llf"]),
+            "rate": rng.choice([0, 4, 8, 16, 32, 80]), "period": rng.choice([1, 5]), "evs": evs}
+
+
+def _gen_use(rng, ids, names):
+    r = rng.random()
+    if not ids:
+        return {"op": "json", "via": rng.choice(JSON_VIAS)} if r < 0.5 else {"op": "iface", "ids": []}
+    if r < 0.36:
+        return _gen_feasible(rng, ids)
+    if r < 0.58:
+        return {"op": "json", "via": rng.choice(JSON_VIAS)}
+    if r < 0.70:
+        return _gen_sim(rng, ids)
+    if r < 0.82:
+        return {"op": "iface", "ids": list(ids) + ([rng.choice(UNKNOWN)] if rng.random() < 0.1 else [])}
+    q = _gen_query(rng, ids, names) if ids else {"op": "iface", "ids": []}
+    if q["op"] == "query" and rng.random() < 0.4:
+        q["linear"] = True
+    return q
+
+
 def _gen_case(rng, tier):
     ops = []
     nst = rng.choice([0, 1, 2, 3, 3, 4, 4, 5, 6])
@@ -221,6 +322,10 @@ def _gen_case(rng, tier):
     names = []      # generator-side simulation of the naming convention (only to pick mostly-valid ops)
     frozen = False
     n = rng.randint(2, 12)
+    # seeded-bug class: READ-ONLY uses of the network and save/resume round trips BETWEEN the edits
+    use_rate = rng.choice([0, 0.3, 0.5, 0.5, 0.8])
+    if ids and use_rate and rng.random() < 0.3:
+        ops.append(_gen_use(rng, ids, names))     # before any constraint exists
     # seeded-bug class: a REJECTED add_constraint (unknown station) in the middle of the history, with
     # successful adds before it and adds / removes / updates after it
     reject_at = rng.randint(1, max(1, n - 2)) if (ids and rng.random() < 0.2) else None
@@ -272,9 +377,22 @@ def _gen_case(rng, tier):
         else:
             if ids:
                 ops.append({"op": "query", **{k: v for k, v in _gen_query(rng, ids, names).items() if k != "op"}})
+                if rng.random() < 0.25:
+                    ops[-1]["linear"] = True
+        if use_rate:
+            while rng.random() < use_rate:
+                ops.append(_gen_use(rng, ids, names))
+                if rng.random() < 0.5:
+                    break
     if reject_at is not None and ids:
         ops.append(_gen_query(rng, ids, names))
-    return {"ops": ops}
+    case = {"ops": ops}
+    if rng.random() < 0.5:
+        case["max_rate"] = 32     # finite EVSE limits (RoundRobin enumerates the allowable pilots)
+    if rng.random() < 0.25:
+        case["vt"] = rng.choice([1e-5, 0.0, 0.5, 1e-3])
+        case["rt"] = rng.choice([1e-7, 0.0, 0.01])
+    return case
 
 
 def corpus():
@@ -299,13 +417,53 @@ def corpus():
         # empty network corner cases
         {"ops": [{"op": "add", "expr": {"t": "none"}, "limit": 1, "name": None}, {"op": "remove", "name": "_const_0"},
                  {"op": "register", "id": "A"}]},
+        # the network IN USE between the edits: stations registered in non-lexicographic order with different
+        # phase angles / voltages; feasibility questions in every mode, views, a simulation and save/resume
+        # round trips between add / update / remove (seeded classes C12-7: a read that writes into magnitudes;
+        # C12-8: a resume that re-orders the stations)
+        {"vt": 1e-3, "rt": 0.01, "ops": [
+            {"op": "register", "id": "s9", "phase": 30, "voltage": 208},
+            {"op": "register", "id": "s10", "phase": -90, "voltage": 240},
+            {"op": "register", "id": "B", "phase": 150, "voltage": 277},
+            {"op": "register", "id": "A", "phase": 30, "voltage": 120},
+            {"op": "json", "via": "str"},
+            {"op": "add", "expr": {"t": "add", "l": {"t": "list", "ids": ["s10", "A"]},
+                                   "r": {"t": "dict", "items": [["A", 0.5], ["s9", 2.0]]}}, "limit": 40, "name": "feeder"},
+            {"op": "feasible", "via": "network", "sched": [[2, 4], [2, 4], [2, 4], [2, 4]], "linear": False,
+             "vt": None, "rt": None},
+            {"op": "feasible", "via": "network", "sched": [[8, 16], [8, 0], [1, 0], [8, 8]], "linear": True,
+             "vt": 0.5, "rt": 0.25},
+            {"op": "add", "expr": {"t": "sub", "l": {"t": "lmul", "k": 2, "e": {"t": "str", "id": "B"}},
+                                   "r": {"t": "dict", "items": [["A", 0.5], ["s9", 2.0]]}}, "limit": 25.5, "name": "branch"},
+            {"op": "feasible", "via": "interface", "loads": [["A", [4, 4]], ["s9", [1, 32]], ["Z", [9, 9]]],
+             "linear": False, "vt": None, "rt": None},
+            {"op": "feasible", "via": "alg", "sched": [[1], [2], [3], [4]], "linear": False, "vt": None, "rt": None},
+            {"op": "iface", "ids": ["A", "B", "s10", "s9", "Z"]},
+            {"op": "json", "via": "str"},
+            {"op": "query", "sched": [[1, 2], [3, 5], [7, 11], [13, 17]], "names": ["branch"], "times": [1, 0]},
+            {"op": "query", "sched": [[1, 2], [3, 5], [7, 11], [13, 17]], "names": None, "times": None, "linear": True},
+            {"op": "add", "expr": {"t": "rmul", "e": {"t": "sub", "l": {"t": "list", "ids": ["s10", "A"]},
+                                                      "r": {"t": "str", "id": "B"}}, "k": 0.25}, "limit": 100, "name": "main"},
+            {"op": "sim", "algo": "stub", "rate": 16, "period": 5, "evs": [["A", 0, 3, 2.0], ["s9", 1, 4, 5.0]]},
+            {"op": "update", "name": "feeder", "expr": {"t": "dict", "items": [["B", 3.0], ["s10", -1.0]]}, "limit": 41,
+             "new_name": "feeder2"},
+            {"op": "json", "via": "buf"},
+            {"op": "sim", "algo": "fcfs", "rate": 0, "period": 1, "evs": [["B", 0, 2, 0.5]]},
+            {"op": "remove", "name": "main"},
+            {"op": "json", "via": "sim"},
+            {"op": "feasible", "via": "network", "sched": [[0], [0], [12.75], [0]], "linear": True, "vt": 0.0, "rt": 0.0},
+            {"op": "iface", "ids": ["s9", "s10", "B", "A"]},
+            {"op": "register", "id": "E"},
+            {"op": "query", "sched": [[1], [3], [7], [13]], "names": ["feeder2", "branch"], "times": None},
+        ]},
     ]
 
 
 def _small_scope():
-    """EVERY history of <= 3 operations over a 16-letter alphabet on 2 and on 3 stations, and every history of
-    exactly 4 operations over an 8-letter alphabet on 2 stations; names from {None, 'x', '_const_0'}; each
-    history ends with one subset query.  Deterministic (no rng)."""
+    """EVERY history of <= 3 operations over an 18-letter alphabet on 2 and on 3 stations, and every history of
+    exactly 4 operations over a 10-letter alphabet on 2 stations; names from {None, 'x', '_const_0'}; both
+    alphabets contain a feasibility question and a JSON save/resume; each history ends with one subset query.
+    Deterministic (no rng)."""
     import itertools
     cA = {"t": "list", "ids": ["A"]}
     cBA = {"t": "dict", "items": [["B", 2], ["A", -1]]}
@@ -323,25 +481,31 @@ def _small_scope():
     big += [{"op": "update", "name": nm, "expr": cBA, "limit": None, "new_name": nn}
             for nm in ("x", "_const_0") for nn in (None, "x")]
     big += [{"op": "register", "id": "C"}]
+    # the network in use: a feasibility question (limits 10.5, 20.5, ...: both answers occur) and a save/resume
+    uses = [{"op": "feasible", "via": "network", "sched": None, "linear": False, "vt": None, "rt": None},
+            {"op": "json", "via": "str"}]
+    big += uses
     small = [add(E, nm) for E in (cA, comp) for nm in (None, "x")]
     small += [{"op": "remove", "name": "x"}, {"op": "remove", "name": "_const_0"},
               {"op": "update", "name": "x", "expr": cBA, "limit": None, "new_name": None},
               {"op": "update", "name": "_const_0", "expr": bad, "limit": None, "new_name": "x"}]
-    assert len(big) == 16 and len(small) == 8
+    small += uses
+    assert len(big) == 18 and len(small) == 10
 
     def case(stations, seq):
         ops = [{"op": "register", "id": s_} for s_ in stations]
+        cur, fr = list(stations), False
         for k, o in enumerate(seq):
             o = dict(o)
             if "limit" in o:
                 o["limit"] = 10 * (k + 1) + 0.5   # distinct limits: a mis-aligned limit is visible
-            ops.append(o)
-        cur, fr = list(stations), False
-        for o in seq:
             if o["op"] == "register" and not fr and o["id"] not in cur:
                 cur.append(o["id"])
             if o["op"] == "add" and o["expr"] is not bad:
                 fr = True
+            if o["op"] == "feasible":
+                o["sched"] = [[j + 1, 4 * j + 3] for j in range(len(cur))]
+            ops.append(o)
         n = len(cur)
         ops.append({"op": "query", "sched": [[j + 1, 2 * j + 3] for j in range(n)],
                     "names": ["x", "_const_0", "x_v2"], "times": [-1, 0]})
@@ -368,7 +532,8 @@ def generate(rng, n, tier):
 
 def _err_name(e):
     n = type(e).__name__
-    if n in ("EVSERegistrationError", "KeyError", "IndexError", "AxisError", "TypeError", "ValueError"):
+    if n in ("EVSERegistrationError", "KeyError", "IndexError", "AxisError", "TypeError", "ValueError",
+             "InvalidScheduleError", "StationOccupiedError", "AttributeError"):
         return n
     for c in (KeyError, IndexError, ValueError, TypeError):
         if isinstance(e, c):
@@ -458,38 +623,221 @@ def _eval_impl(E, Current, taint):
 
 
 def _snapshot(net):
-    df = net.constraints_as_df()
     m = net.constraint_matrix
-    return {
+    out = {
         "nangles": int(len(net._phase_angles)), "nvoltages": int(len(net._voltages)),
+        "angles": [_num(x) for x in np.asarray(net._phase_angles).tolist()],
+        "volts": [_num(x) for x in np.asarray(net._voltages).tolist()],
+        "vt": _num(net.violation_tolerance), "rt": _num(net.relative_tolerance),
         "stations": list(net.station_ids),
         "matrix": None if m is None else [[_num(x) for x in row] for row in np.asarray(m).tolist()],
-        "df_columns": [str(c) for c in df.columns],
-        "df_index": [str(c) for c in df.index],
-        "df_values": [[_num(x) for x in row] for row in df.to_numpy().tolist()],
+        "matrix_ndim": None if m is None else int(np.asarray(m).ndim),
         "magnitudes": [_num(x) for x in np.asarray(net.magnitudes).tolist()],
         "index": [str(x) for x in net.constraint_index],
     }
+    try:
+        df = net.constraints_as_df()
+        out["df_columns"] = [str(c) for c in df.columns]
+        out["df_index"] = [str(c) for c in df.index]
+        out["df_values"] = [[_num(x) for x in row] for row in df.to_numpy().tolist()]
+    except Exception as e:  # noqa
+        out["df_err"] = _err_name(e)
+        out["df_columns"], out["df_index"], out["df_values"] = None, None, None
+    return out
+
+
+_START = None
+_STUB = None
+
+
+def _start():
+    global _START
+    if _START is None:
+        from datetime import datetime
+        _START = datetime(2020, 1, 1)
+    return _START
+
+
+def _stub_cls():
+    """a scheduling algorithm that offers every active session the same rate for one period"""
+    global _STUB
+    if _STUB is None:
+        from acnportal.algorithms import BaseAlgorithm
+
+        class FixedRate(BaseAlgorithm):
+            def __init__(self, rate):
+                super().__init__()
+                self.rate = rate
+                self.max_recompute = 1
+
+            def schedule(self, active_sessions):
+                return {s_.station_id: [self.rate] for s_ in active_sessions}
+
+            def run(self):
+                return self.schedule(self.interface.active_sessions())
+        _STUB = FixedRate
+    return _STUB
+
+
+def _thin_interface(net):
+    """Interface of a Simulator around the LIVE network object (no scheduler, no events)"""
+    from acnportal.acnsim import Simulator, Interface
+    from acnportal.acnsim.events import EventQueue
+    return Interface(Simulator(net, None, EventQueue(), _start(), verbose=False))
+
+
+def _mat(a):
+    return [[_num(x) for x in row] for row in np.asarray(a, dtype=float).tolist()]
+
+
+def _vec(a):
+    return [_num(x) for x in np.asarray(a, dtype=float).tolist()]
+
+
+def _use_feasible(net, o, st):
+    via = o["via"]
+    if via == "network":
+        res = net.is_feasible(np.array(o["sched"], dtype=float), o["linear"], o["vt"], o["rt"])
+    elif via == "interface":
+        res = _thin_interface(net).is_feasible({k: list(v) for k, v in o["loads"]}, o["linear"], o["vt"], o["rt"])
+    else:
+        from acnportal.algorithms.utils import infrastructure_constraints_feasible
+        info = _thin_interface(net).infrastructure_info()
+        kw = {}
+        if o["vt"] is not None:
+            kw["violation_tolerance"] = o["vt"]
+        if o["rt"] is not None:
+            kw["relative_tolerance"] = o["rt"]
+        res = infrastructure_constraints_feasible(np.array(o["sched"], dtype=float), info, o["linear"], **kw)
+    st["result"] = bool(res)
+
+
+def _use_iface(net, o, st):
+    iface = _thin_interface(net)
+    try:
+        c = iface.get_constraints()
+        st["gc"] = {"matrix": _mat(c.constraint_matrix), "magnitudes": _vec(c.magnitudes),
+                    "index": [str(x) for x in c.constraint_index], "evse_index": [str(x) for x in c.evse_index]}
+    except Exception as e:  # noqa
+        st["gc"] = {"err": _err_name(e)}
+    try:
+        i = iface.infrastructure_info()
+        st["info"] = {"matrix": _mat(i.constraint_matrix), "limits": _vec(i.constraint_limits),
+                      "ids": [str(x) for x in i.constraint_ids], "stations": [str(x) for x in i.station_ids],
+                      "phases": _vec(i.phases), "voltages": _vec(i.voltages)}
+    except Exception as e:  # noqa
+        st["info"] = {"err": _err_name(e)}
+    per = []
+    for s_ in o["ids"]:
+        try:
+            per.append([s_, _num(iface.evse_phase(s_)), _num(iface.evse_voltage(s_))])
+        except Exception as e:  # noqa
+            per.append([s_, "err:" + _err_name(e), None])
+    st["per_station"] = per
+    for key, attr in (("net_phase", "phase_angles"), ("net_volt", "voltages")):
+        try:
+            st[key] = sorted([str(k), _num(v)] for k, v in getattr(net, attr).items())
+        except Exception as e:  # noqa
+            st[key] = "err:" + _err_name(e)
+
+
+def _use_json(net, o):
+    """save and resume: the history continues on the object that comes back"""
+    from acnportal.acnsim.network import ChargingNetwork
+    via = o["via"]
+    if via == "str":
+        return ChargingNetwork.from_json(net.to_json())
+    if via == "buf":
+        import io
+        b = io.StringIO()
+        net.to_json(b)
+        b.seek(0)
+        return ChargingNetwork.from_json(b)
+    if via == "deepcopy":
+        return copy.deepcopy(net)
+    from acnportal.acnsim import Simulator
+    from acnportal.acnsim.events import EventQueue
+    from acnportal.algorithms import UncontrolledCharging
+    sim = Simulator(net, UncontrolledCharging(), EventQueue(), _start(), verbose=False)
+    return Simulator.from_json(sim.to_json()).network
+
+
+def _use_sim(net, o, st, tag):
+    from acnportal.acnsim import Simulator
+    from acnportal.acnsim.events import EventQueue, PluginEvent
+    from acnportal.acnsim.models import EV, Battery
+    evs = [EV(a, d, kwh, s_, "ses%s_%d" % (tag, k), Battery(20, 0, 7)) for k, (s_, a, d, kwh) in enumerate(o["evs"])]
+    if o["algo"] == "stub":
+        algo = _stub_cls()(o["rate"])
+    elif o["algo"] == "uncontrolled":
+        from acnportal.algorithms import UncontrolledCharging
+        algo = UncontrolledCharging()
+    elif o["algo"] == "rr":
+        from acnportal.algorithms import RoundRobin, first_come_first_served
+        algo = RoundRobin(first_come_first_served)
+    elif o["algo"] == "llf":
+        from acnportal.algorithms import SortedSchedulingAlgo, least_laxity_first
+        algo = SortedSchedulingAlgo(least_laxity_first)
+    else:
+        from acnportal.algorithms import SortedSchedulingAlgo, first_come_first_served
+        algo = SortedSchedulingAlgo(first_come_first_served)
+    try:
+        sim = Simulator(net, algo, EventQueue([PluginEvent(e.arrival, e) for e in evs]), _start(),
+                        period=o["period"], verbose=False)
+        sim.run()
+        st["periods"] = int(sim.iteration)
+    finally:
+        # leave no EV behind (a failed run stops between plug-in and departure)
+        for s_ in list(net.station_ids):
+            try:
+                ev = net.get_ev(s_)
+                if ev is not None:
+                    net.unplug(s_, ev.session_id)
+            except Exception:  # noqa
+                pass
+
+
+USE_OPS = ("feasible", "iface", "json", "sim")
 
 
 def run_impl(case):
     from acnportal.acnsim.network import ChargingNetwork, Current
     from acnportal.acnsim.models import EVSE
-    net = ChargingNetwork()
+    if case.get("vt") is not None:
+        net = ChargingNetwork(violation_tolerance=case["vt"], relative_tolerance=case["rt"])
+    else:
+        net = ChargingNetwork()
     steps = []
-    for o in case["ops"]:
+    for k, o in enumerate(case["ops"]):
         op = o["op"]
         st = {"err": None}
         if op == "query":
             try:
+                kw = {"linear": True} if o.get("linear") else {}
                 res = net.constraint_current(np.array(o["sched"], dtype=float), constraints=o["names"],
-                                             time_indices=o["times"])
+                                             time_indices=o["times"], **kw)
                 res = np.asarray(res)
                 st["result"] = [[_num(x) for x in row] for row in res.real.tolist()]
                 st["imag"] = [[_num(x) for x in row] for row in res.imag.tolist()]
                 st["shape"] = list(res.shape)
             except Exception as e:  # noqa
                 st["err"] = _err_name(e)
+            st.update(_snapshot(net))
+            steps.append(st)
+            continue
+        if op in USE_OPS:
+            try:
+                if op == "feasible":
+                    _use_feasible(net, o, st)
+                elif op == "iface":
+                    _use_iface(net, o, st)
+                elif op == "json":
+                    net = _use_json(net, o)
+                else:
+                    _use_sim(net, o, st, k)
+            except Exception as e:  # noqa
+                st["err"] = _err_name(e)
+            st.update(_snapshot(net))
             steps.append(st)
             continue
         if op in ("add", "update"):
@@ -507,7 +855,8 @@ def run_impl(case):
             st["coeffs"] = _series_vals(cur)
         try:
             if op == "register":
-                net.register_evse(EVSE(o["id"]), o.get("voltage", 208), o.get("phase", 0))
+                evse = EVSE(o["id"]) if case.get("max_rate") is None else EVSE(o["id"], max_rate=case["max_rate"])
+                net.register_evse(evse, o.get("voltage", 208), o.get("phase", 0))
             elif op == "add":
                 net.add_constraint(cur, o["limit"], name=o["name"])
             elif op == "remove":
@@ -548,6 +897,10 @@ def _expr_wire(E):
     return E
 
 
+def _optbits(x):
+    return None if x is None else f2b(x)
+
+
 def model_request(case):
     ops = []
     for o in case["ops"]:
@@ -560,13 +913,26 @@ def model_request(case):
         elif op == "query":
             sched = o["sched"]
             ops.append({"op": "query", "sched": [[f2b(x) for x in row] for row in sched],
-                        "T": len(sched[0]) if sched else 0, "names": o["names"], "times": o["times"]})
+                        "T": len(sched[0]) if sched else 0, "names": o["names"], "times": o["times"],
+                        "linear": bool(o.get("linear"))})
         elif op == "register":
             c, s_ = _cs(o.get("phase", 0))
             ops.append({"op": "register", "id": o["id"], "c": f2b(c), "s": f2b(s_), "v": f2b(o.get("voltage", 208))})
+        elif op == "feasible":
+            w = {"op": "feasible", "via": o["via"], "linear": bool(o["linear"]), "vt": _optbits(o["vt"]),
+                 "rt": _optbits(o["rt"])}
+            if o["via"] == "interface":
+                w["loads"] = [[k, [f2b(x) for x in row]] for k, row in o["loads"]]
+            else:
+                w["sched"] = [[f2b(x) for x in row] for row in o["sched"]]
+            ops.append(w)
+        elif op in ("iface", "json", "sim"):
+            ops.append({"op": op})
         else:
             ops.append(o)
-    return {"ops": ops}
+    vt = case["vt"] if case.get("vt") is not None else 1e-5
+    rt = case["rt"] if case.get("vt") is not None else 1e-7
+    return {"ops": ops, "vt": f2b(vt), "rt": f2b(rt)}
 
 
 def _cs(phase):
@@ -590,20 +956,25 @@ def _close_rows(a, b):
 def compare(case, obs, model):
     out = []
     for i, (o, a, m) in enumerate(zip(case["ops"], obs["steps"], model["steps"])):
+        op = o["op"]
         if a.get("skipped"):
             out.append(f"step {i}: implementation's expression value is not a Current ({a['taint'][0]['node']} is "
                        f"{a['taint'][0]['type']}); the model evaluates it")
             continue
-        if a["err"] != m["err"]:
-            out.append(f"step {i} {o['op']}: err impl={a['err']} model={m['err']}")
-            continue
-        if o["op"] == "query":
-            if a["err"] is None:
-                mr = [[b2f(x) for x in row] for row in m["result"]]
-                mi = [[b2f(x) for x in row] for row in m["imag"]]
-                if not _close_rows(a["result"], mr) or not _close_rows(a["imag"], mi):
-                    out.append(f"step {i} query: impl={a['result']} + i{a['imag']} model={mr} + i{mi}")
-            continue
+        if op != "sim" and a["err"] != m["err"]:
+            if op == "feasible" and _edge(case, obs, i):
+                pass
+            else:
+                out.append(f"step {i} {op}: err impl={a['err']} model={m['err']}")
+                continue
+        if op == "query" and a["err"] is None:
+            mr = [[b2f(x) for x in row] for row in m["result"]]
+            mi = [[b2f(x) for x in row] for row in m["imag"]]
+            if not _close_rows(a["result"], mr) or not _close_rows(a["imag"], mi):
+                out.append(f"step {i} query: impl={a['result']} + i{a['imag']} model={mr} + i{mi}")
+        if op == "feasible" and a["err"] is None and m["err"] is None and a["result"] != m["result"] \
+                and not _edge(case, obs, i):
+            out.append(f"step {i} feasible via {o['via']}: impl={a['result']} model={m['result']}")
         if "coeffs" in a:
             mc = [[k, b2f(v)] for k, v in m["coeffs"]]
             if [k for k, _ in mc] != [k for k, _ in a["coeffs"]] or not all(
@@ -611,6 +982,11 @@ def compare(case, obs, model):
                 out.append(f"step {i}: expression value impl={a['coeffs']} model={mc}")
         if a["nangles"] != m["nangles"] or a["nvoltages"] != m["nvoltages"]:
             out.append(f"step {i}: {a['nangles']} phase angles / {a['nvoltages']} voltages, model {m['nangles']} / {m['nvoltages']}")
+        mv = [b2f(x) for x in m["voltages"]]
+        if len(mv) == len(a["volts"]) and not all(close(float(x), y) for x, y in zip(a["volts"], mv)):
+            out.append(f"step {i}: _voltages impl={a['volts']} model={mv}")
+        if not close(float(a["vt"]), b2f(m["vt"])) or not close(float(a["rt"]), b2f(m["rt"])):
+            out.append(f"step {i}: tolerances impl=({a['vt']}, {a['rt']}) model=({b2f(m['vt'])}, {b2f(m['rt'])})")
         if a["stations"] != m["stations"]:
             out.append(f"step {i}: stations impl={a['stations']} model={m['stations']}")
         if a["index"] != m["index"]:
@@ -618,6 +994,7 @@ def compare(case, obs, model):
         mm = [b2f(x) for x in m["magnitudes"]]
         if len(mm) != len(a["magnitudes"]) or not all(close(float(x), y) for x, y in zip(a["magnitudes"], mm)):
             out.append(f"step {i}: magnitudes impl={a['magnitudes']} model={mm}")
+        mx = None
         if (a["matrix"] is None) != (m["matrix"] is None):
             out.append(f"step {i}: constraint_matrix None-ness impl={a['matrix']} model={m['matrix']}")
         elif a["matrix"] is not None:
@@ -625,7 +1002,40 @@ def compare(case, obs, model):
             # a 0 x n numpy matrix lists as [] on both sides
             if not _close_rows(a["matrix"], mx):
                 out.append(f"step {i}: constraint_matrix impl={a['matrix']} model={mx}")
+        if op == "iface":
+            # the Interface's views are the model's state (`full_net_projects`): matrix (0 x N when there is none),
+            # limits, names, stations
+            for key, fields in (("gc", ("matrix", "magnitudes", "index", "evse_index")),
+                                ("info", ("matrix", "limits", "ids", "stations"))):
+                g = a[key]
+                if g.get("err"):
+                    if m["view_err"] != g["err"]:
+                        out.append(f"step {i}: {key} raised {g['err']}, model view: {m['view_err']}")
+                    continue
+                if m["view_err"] is not None:
+                    out.append(f"step {i}: {key} answered, model view raises {m['view_err']}")
+                    continue
+                m_, l_, i_, s_ = (g[f] for f in fields)
+                if s_ != m["stations"] or i_ != m["index"] or not _close_rows([l_], [mm]) or not _close_rows(m_, mx or []):
+                    out.append(f"step {i}: {key} = {g} differs from the model state")
     return out
+
+
+def _edge(case, obs, i):
+    """the feasibility question of step i is within 1e-8 of the edge (hypot vs. squares in doubles): not compared"""
+    angles = [_cs(o.get("phase", 0)) for o, st in zip(case["ops"][:i], obs["steps"][:i])
+              if o["op"] == "register" and st["err"] is None]
+    # only the verdict's distance from the edge matters; take the state from the implementation's own snapshot
+    st = obs["steps"][i]
+    cons = [({s_: Fraction(x) for s_, x in zip(st["stations"], row)}, lim, nm)
+            for row, lim, nm in zip(st["matrix"] or [], st["magnitudes"], st["index"])]
+    vt = case["vt"] if case.get("vt") is not None else 1e-5
+    rt = case["rt"] if case.get("vt") is not None else 1e-7
+    try:
+        kind, val = _feasible_expected(case["ops"][i], st["stations"], cons, angles, vt, rt)
+    except Exception:  # noqa
+        return False
+    return kind == "ok" and val is None
 
 
 # ------------------------------------------------------------------ property oracle
@@ -653,8 +1063,14 @@ def _isnan(x):
     return x == "nan" or (isinstance(x, float) and math.isnan(x))
 
 
+STATE_KEYS = ("stations", "matrix", "magnitudes", "index", "angles", "volts", "vt", "rt")
+
+
 def _state_of(st):
-    return {k: st[k] for k in ("stations", "matrix", "magnitudes", "index")}
+    return {k: st[k] for k in STATE_KEYS}
+
+
+F19_KIND = "json_resume_flattens_empty_matrix"
 
 
 def oracle(case, obs):
@@ -665,12 +1081,13 @@ def oracle(case, obs):
 
     stations, frozen, cons = [], False, []   # the specification: a plain list of (coeffs, limit, name)
     angles = []                               # one (cos, sin) per ACCEPTED register_evse call
-    prev = {"stations": [], "matrix": None, "magnitudes": [], "index": []}
+    regs = []                                 # one (phase, voltage) per ACCEPTED register_evse call
+    vt = case["vt"] if case.get("vt") is not None else 1e-5
+    rt = case["rt"] if case.get("vt") is not None else 1e-7
+    prev = {"stations": [], "matrix": None, "magnitudes": [], "index": [], "angles": [], "volts": [],
+            "vt": vt, "rt": rt}
     for i, (o, st) in enumerate(zip(case["ops"], obs["steps"])):
         op = o["op"]
-        if op == "query":
-            _oracle_query(i, o, st, stations, frozen, cons, angles, fail)
-            continue
         if st.get("skipped"):
             first = st["taint"][0]
             if first["op"] in ("lmul", "rmul") and first["type"] == "Series":
@@ -686,11 +1103,26 @@ def oracle(case, obs):
             continue
         exp_err = None
         exp_unchanged = False
-        if op == "register":
+        judge_err = True
+        if op == "query":
+            _oracle_query(i, o, st, stations, frozen, cons, angles, fail)
+            exp_unchanged, judge_err = True, False
+        elif op == "feasible":
+            _oracle_feasible(i, o, st, stations, cons, angles, vt, rt, fail)
+            exp_unchanged, judge_err = True, False
+        elif op == "iface":
+            _oracle_iface(i, o, st, stations, frozen, cons, regs, fail)
+            exp_unchanged, judge_err = True, False
+        elif op == "json":
+            exp_unchanged = True       # a resumed network IS the network that was saved
+        elif op == "sim":
+            exp_unchanged, judge_err = True, False   # what the run raises (if anything) is not C12's business
+        elif op == "register":
             if frozen:
                 exp_err, exp_unchanged = "EVSERegistrationError", True
             else:
                 angles = angles + [_cs(o.get("phase", 0))]
+                regs = regs + [(float(o.get("phase", 0)), float(o.get("voltage", 208)))]
                 if o["id"] not in stations:
                     stations = stations + [o["id"]]
         elif op in ("add", "update"):
@@ -728,16 +1160,44 @@ def oracle(case, obs):
             else:
                 j = names.index(o["name"])
                 cons = cons[:j] + cons[j + 1:]
-        if st["err"] != exp_err:
-            kind = "register_not_refused" if (op == "register" and exp_err) else "error_class_wrong"
+        # ---- finding F19: a matrix without rows comes back from JSON as a 1-D array; the network is unusable
+        # from then on (constraints_as_df / add_constraint / constraint_current raise, add_constraint after having
+        # appended the limit).  Reported once, under its own kind; the rest of such a history is not judged.
+        if st["matrix"] is not None and st["matrix_ndim"] != 2:
+            fail(F19_KIND, f"op {i} {op}: constraint_matrix has {st['matrix_ndim']} dimension(s) (shape lost) on a "
+                           f"network with {len(stations)} stations whose constraints were all removed; "
+                           f"constraints_as_df(): {st.get('df_err')}")
+            return fails
+        if judge_err and st["err"] != exp_err:
+            kind = "register_not_refused" if (op == "register" and exp_err) else (
+                "resume_raises" if op == "json" else "error_class_wrong")
             fail(kind, f"op {i} {op}: raised {st['err']}, expected {exp_err}")
         cur = _state_of(st)
         if exp_unchanged and cur != prev:
-            fail("failed_op_changed_state", f"op {i} {op}: before={prev} after={cur}")
+            changed = [k for k in STATE_KEYS if cur[k] != prev[k]]
+            if op in ("query", "feasible", "iface", "sim"):
+                fail("read_only_use_changed_state",
+                     f"op {i} {op} ({o.get('via') or o.get('algo') or ''}): {changed} changed: before="
+                     f"{ {k: prev[k] for k in changed} } after={ {k: cur[k] for k in changed} }")
+            elif op == "json":
+                fail("resume_changed_state",
+                     f"op {i} json via {o['via']}: {changed} changed: before={ {k: prev[k] for k in changed} } "
+                     f"after={ {k: cur[k] for k in changed} }")
+            else:
+                fail("failed_op_changed_state", f"op {i} {op}: before={prev} after={cur}")
         # ---- alignment of the three containers with the specification
         if st["nangles"] != len(angles) or st["nvoltages"] != len(angles):
             fail("phase_vector_wrong", f"op {i}: {st['nangles']} phase angles, {st['nvoltages']} voltages after "
                                        f"{len(angles)} accepted registrations")
+        elif st["angles"] != [r_[0] for r_ in regs] or st["volts"] != [r_[1] for r_ in regs]:
+            fail("phase_vector_wrong", f"op {i}: _phase_angles={st['angles']} _voltages={st['volts']}, registered "
+                                       f"(phase, voltage) = {regs}")
+        if st["vt"] != vt or st["rt"] != rt:
+            fail("tolerance_changed", f"op {i}: tolerances ({st['vt']}, {st['rt']}), constructed with ({vt}, {rt})")
+        if st.get("df_err"):
+            fail("constraints_as_df_raises", f"op {i}: constraints_as_df() raised {st['df_err']}")
+            prev = cur
+            continue
         if st["stations"] != stations or st["df_columns"] != stations:
             fail("stations_wrong", f"op {i}: station_ids={st['stations']} df.columns={st['df_columns']} expected={stations}")
         rows = st["matrix"] if st["matrix"] is not None else []
@@ -754,10 +1214,13 @@ def oracle(case, obs):
                 if any(_isnan(x) for x in row):
                     fail("nan_stored", f"op {i}: row {r} ({c[2]}) = {row}")
                     break
+                # per STATION (by label): the coefficient the network shows for station s is the one given for s
+                shown = dict(zip(st["stations"], row)) if len(row) == len(st["stations"]) else None
                 want_row = [c[0].get(s, Fraction(0)) for s in stations]
-                if len(row) != len(want_row) or not all(close(float(x), float(w)) for x, w in zip(row, want_row)):
-                    fail("row_mismatch", f"op {i}: row {r} ({c[2]}) = {row}, expected {[float(w) for w in want_row]} "
-                                         f"over stations {stations}")
+                if shown is None or set(shown) != set(stations) or not all(
+                        close(float(shown[s]), float(w)) for s, w in zip(stations, want_row)):
+                    fail("row_mismatch", f"op {i}: row {r} ({c[2]}) = {row} over station_ids {st['stations']}, expected "
+                                         f"{[float(w) for w in want_row]} over stations {stations}")
                     break
                 if _isnan(mag) or not close(float(mag), float(c[1])):
                     fail("limit_mismatch", f"op {i}: magnitudes[{r}] = {mag}, expected {c[1]} ({c[2]})")
@@ -776,17 +1239,25 @@ def _norm_time(t, T):
     return None
 
 
+def _bwidth(R, A):
+    """numpy broadcasting of the schedule rows (R) against the angle coefficients (A)"""
+    return R if R == A else (A if R == 1 else (R if A == 1 else None))
+
+
 def _oracle_query(i, o, st, stations, frozen, cons, angles, fail):
-    """constraint_current(schedule, names, times) with the network's own phase angles, linear=False.
-    numpy's rules, written independently of the model: column indexing first (IndexError); the schedule
-    (R rows) is broadcast against the A angle coefficients (needs R == A, R == 1 or A == 1, else ValueError);
-    None[...] on a constraint-free network (TypeError); the matrix product needs as many phasor rows as
-    stations (ValueError).  After an id was registered twice A > len(stations) and every query raises."""
+    """constraint_current(schedule, names, times) with the network's own phase angles.
+    numpy's rules, written independently of the model.  linear=False: column indexing first (IndexError); the
+    schedule (R rows) is broadcast against the A angle coefficients (needs R == A, R == 1 or A == 1, else
+    ValueError); None[...] on a constraint-free network (TypeError); the matrix product needs as many phasor rows
+    as stations (ValueError).  After an id was registered twice A > len(stations) and every query raises.
+    linear=True: column indexing (IndexError), None[...] (TypeError), the product abs(M) @ S needs R == number of
+    stations (ValueError); the angles are not read; the value is |sum_j |a_j| S_j|, imaginary part 0."""
     sched = o["sched"]
+    linear = bool(o.get("linear"))
     R, A, n = len(sched), len(angles), len(stations)
     T = len(sched[0]) if sched else 0
     times = list(range(T)) if o["times"] is None else [_norm_time(t, T) for t in o["times"]]
-    W = R if R == A else (A if R == 1 else (R if A == 1 else None))
+    W = R if linear else _bwidth(R, A)
     if any(t is None for t in times):
         exp = "IndexError"
     elif W is None:
@@ -799,7 +1270,7 @@ def _oracle_query(i, o, st, stations, frozen, cons, angles, fail):
         exp = None
     if st["err"] != exp:
         fail("query_error_class_wrong", f"op {i}: raised {st['err']}, expected {exp} (schedule rows {R}, "
-                                        f"{A} phase angles, {n} stations)")
+                                        f"{A} phase angles, {n} stations, linear={linear})")
         return
     if exp is not None:
         return
@@ -809,14 +1280,143 @@ def _oracle_query(i, o, st, stations, frozen, cons, angles, fail):
                             f"(names={o['names']}, times={o['times']})")
         return
     for part, comp in (("result", 0), ("imag", 1)):
-        want = [[sum((c[0].get(s, Fraction(0)) * Fraction(sched[0 if R == 1 else j][t])
-                      * Fraction(angles[0 if A == 1 else j][comp]) for j, s in enumerate(stations)), Fraction(0))
-                 for t in times] for c in sel]
+        if linear:
+            want = [[abs(sum((abs(c[0].get(s, Fraction(0))) * Fraction(sched[j][t]) for j, s in enumerate(stations)),
+                             Fraction(0))) if comp == 0 else Fraction(0) for t in times] for c in sel]
+        else:
+            want = [[sum((c[0].get(s, Fraction(0)) * Fraction(sched[0 if R == 1 else j][t])
+                          * Fraction(angles[0 if A == 1 else j][comp]) for j, s in enumerate(stations)), Fraction(0))
+                     for t in times] for c in sel]
         for r, (gr, wr) in enumerate(zip(st[part], want)):
             if not all((not _isnan(g)) and close(float(g), float(w)) for g, w in zip(gr, wr)):
                 fail("query_wrong", f"op {i}: {'Re' if comp == 0 else 'Im'} row {r} ({sel[r][2]}) = {gr}, expected "
-                                    f"{[float(w) for w in wr]} (names={o['names']}, times={o['times']})")
+                                    f"{[float(w) for w in wr]} (names={o['names']}, times={o['times']}, linear={linear})")
                 return
+
+
+def _feasible_expected(o, stations, cons, angles, vt, rt):
+    """('err', class) | ('ok', True/False/None) — None = within 1e-9 of the edge (abstain).  Independent of the
+    model: exact rational arithmetic on the given doubles (cos/sin as numpy computes them)."""
+    via, linear = o["via"], bool(o["linear"])
+    n, A = len(stations), len(angles)
+    if via == "interface":
+        loads = {k: v for k, v in o["loads"]}
+        if not loads:
+            return ("ok", True)
+        if len({len(v) for v in loads.values()}) > 1:
+            return ("err", "InvalidScheduleError")
+        T = len(next(iter(loads.values())))
+        sched = [list(loads[s]) if s in loads else [0] * T for s in stations]
+        if n == 0:
+            sched = []
+    else:
+        sched = o["sched"]
+    R = len(sched)
+    T = len(sched[0]) if sched else 0
+    vt_ = o["vt"] if o["vt"] is not None else (vt if via != "alg" else 1e-5)
+    rt_ = o["rt"] if o["rt"] is not None else (rt if via != "alg" else 1e-7)
+    if via == "alg":
+        if A != n:
+            return ("err", "ValueError")      # InfrastructureInfo._validate
+        if not cons:
+            return ("ok", True)
+        if R != n:
+            return ("err", "ValueError")
+        W = n
+    else:
+        if not cons:
+            return ("ok", True)
+        if via == "interface" and n == 0:
+            # np.array([]) is 1-D: schedule_matrix.T * angle_coeffs etc. — not generated
+            return ("ok", None)
+        W = R if linear else _bwidth(R, A)
+        if W is None or W != n:
+            return ("err", "ValueError")
+    verdict = True
+    for c in cons:
+        lim = Fraction(c[1])
+        b = lim + max(Fraction(vt_), Fraction(rt_) * lim)
+        for t in range(T):
+            if linear:
+                agg = abs(sum((abs(c[0].get(s, Fraction(0))) * Fraction(sched[j][t]) for j, s in enumerate(stations)),
+                              Fraction(0)))
+                lhs, rhs = agg, b
+                ok = agg <= b
+            else:
+                re, im = (sum((c[0].get(s, Fraction(0)) * Fraction(sched[0 if R == 1 else j][t])
+                               * Fraction(angles[0 if A == 1 else j][comp])
+                               for j, s in enumerate(stations)), Fraction(0)) for comp in (0, 1))
+                lhs, rhs = re * re + im * im, b * b
+                ok = b >= 0 and lhs <= rhs
+                if b < 0:
+                    lhs, rhs = Fraction(0), b
+            if abs(lhs - rhs) <= Fraction(1, 10 ** 8) * max(1, abs(rhs)):
+                return ("ok", None)
+            if not ok:
+                verdict = False
+    return ("ok", verdict)
+
+
+def _oracle_feasible(i, o, st, stations, cons, angles, vt, rt, fail):
+    kind, val = _feasible_expected(o, stations, cons, angles, vt, rt)
+    if kind == "err":
+        if st["err"] != val:
+            fail("feasible_error_class_wrong", f"op {i} via {o['via']}: raised {st['err']}, expected {val}")
+        return
+    if val is None:
+        return
+    if st["err"] is not None:
+        fail("feasible_error_class_wrong", f"op {i} via {o['via']}: raised {st['err']}, expected an answer")
+        return
+    if st["result"] != val:
+        fail("feasible_wrong", f"op {i} via {o['via']} linear={o['linear']} vt={o['vt']} rt={o['rt']}: answered "
+                               f"{st['result']}, the limits given to add/update_constraint imply {val}")
+
+
+def _oracle_iface(i, o, st, stations, frozen, cons, regs, fail):
+    """Interface.get_constraints() / infrastructure_info() / evse_phase / evse_voltage and the network's
+    phase_angles / voltages dicts show the aligned triple, station by station."""
+    n, A = len(stations), len(regs)
+    rows = [[float(c[0].get(s, Fraction(0))) for s in stations] for c in cons]
+    lims = [float(c[1]) for c in cons]
+    names = [c[2] for c in cons]
+
+    def same_rows(a, b):
+        return _close_rows(a, b)
+
+    for key, fields in (("gc", ("matrix", "magnitudes", "index", "evse_index")),
+                        ("info", ("matrix", "limits", "ids", "stations"))):
+        g = st[key]
+        if A != n:
+            if g.get("err") != "ValueError":
+                fail("interface_view_wrong", f"op {i}: {key} = {g}, expected ValueError ({A} phase angles, {n} stations)")
+            continue
+        if g.get("err"):
+            fail("interface_view_wrong", f"op {i}: {key} raised {g['err']}")
+            continue
+        m_, l_, i_, s_ = (g[f] for f in fields)
+        if s_ != stations or i_ != names or len(l_) != len(lims) or not all(close(float(x), y) for x, y in zip(l_, lims)) \
+                or not same_rows(m_, rows):
+            fail("interface_view_wrong", f"op {i}: {key} = {g}, expected rows {rows} over {stations}, limits {lims}, "
+                                         f"names {names}")
+        if key == "info" and (g["phases"] != [r_[0] for r_ in regs] or g["voltages"] != [r_[1] for r_ in regs]):
+            fail("interface_view_wrong", f"op {i}: info phases {g['phases']} voltages {g['voltages']}, registered {regs}")
+    for s_, ph, v in st["per_station"]:
+        if A != n:
+            want = ("err:ValueError", None)
+        elif s_ not in stations:
+            want = ("err:KeyError", None)
+        else:
+            want = regs[stations.index(s_)]
+        if (ph, v) != tuple(want):
+            fail("station_phase_voltage_wrong", f"op {i}: Interface says station {s_} has phase {ph}, voltage {v}; "
+                                                f"registered with {want}")
+    if A == n:
+        wp = sorted([s_, regs[j][0]] for j, s_ in enumerate(stations))
+        wv = sorted([s_, regs[j][1]] for j, s_ in enumerate(stations))
+        if st["net_phase"] != wp or st["net_volt"] != wv:
+            fail("station_phase_voltage_wrong", f"op {i}: network.phase_angles={st['net_phase']} voltages="
+                                                f"{st['net_volt']}, registered {wp} / {wv}")
 
 
 # ------------------------------------------------------------------ evidence helpers
@@ -824,6 +1424,8 @@ def _oracle_query(i, o, st, stations, frozen, cons, angles, fail):
 def nontrivial(case, obs):
     composite = False
     touched = False
+    used = False          # a read-only use / a resume while constraints were stored ...
+    used_mid = False      # ... followed by a later successful edit
     for o, st in zip(case["ops"], obs["steps"]):
         if st.get("skipped"):
             continue
@@ -833,7 +1435,11 @@ def nontrivial(case, obs):
             touched = True
         if o["op"] == "query" and st["err"] is None and o["names"] is not None and st["shape"][0] >= 1:
             touched = True
-    return composite and touched
+        if o["op"] in USE_OPS and len(st["index"]) >= 1 and (st["err"] is None or o["op"] == "sim"):
+            used = True
+        if o["op"] in ("add", "remove", "update") and st["err"] is None and used:
+            used_mid = True
+    return composite and (touched or used_mid)
 
 
 def _depth(E):
@@ -878,12 +1484,38 @@ def features(case, obs):
                     out.append("add:first_row_path")
             elif op == "update" and st["err"] == "KeyError" and len(st["index"]) < rows_before:
                 out.append("update:not_atomic_row_lost")
+        if op == "feasible":
+            out.append("feasible:%s:%s" % (o["via"], "linear" if o["linear"] else "phasor"))
+            if o["vt"] is not None or o["rt"] is not None:
+                out.append("feasible:explicit_tolerance")
+            if st["err"] is None:
+                out.append("feasible:answer=%s:rows=%d" % (st["result"], min(len(st["index"]), 3)))
+        if op == "json":
+            out.append("json:" + o["via"])
+            if st["stations"] != sorted(st["stations"]):
+                out.append("json:stations_not_in_lexicographic_order")
+            if st["index"]:
+                out.append("json:with_constraints")
+            if st["matrix"] == [] and st["err"] is None:
+                out.append("json:all_constraints_removed")
+        if op == "sim":
+            out.append("sim:" + o["algo"])
+            if st["err"] is None:
+                out.append("sim:periods=%d" % min(st.get("periods", 0), 6))
+            if st["index"]:
+                out.append("sim:with_constraints")
+        if op == "iface" and st["index"]:
+            out.append("iface:with_constraints")
+        if op == "query" and o.get("linear"):
+            out.append("query:linear")
         if op == "query" and st["err"] is None:
             out.append("query:names=" + ("None" if o["names"] is None else "subset"))
             out.append("query:times=" + ("None" if o["times"] is None else "subset"))
             if o["times"] and any(t < 0 for t in o["times"]):
                 out.append("query:negative_time_index")
     out.append("stations:%d" % nreg)
+    if case.get("vt") is not None:
+        out.append("network:own_tolerances")
     out.extend(_class_features(case, obs))
     return out
 
@@ -924,6 +1556,17 @@ def _class_features(case, obs):
         if op == "query":
             if st["err"] is None and len(o["sched"]) == 1 and len(st["result"]) and len(o["sched"]) != st.get("n", 1):
                 pass
+    # READ-ONLY uses / resumes between edits
+    pending = set()
+    for o, st in zip(case["ops"], obs["steps"]):
+        if st.get("skipped"):
+            continue
+        if o["op"] in USE_OPS and st["index"]:
+            pending.add(o["op"])
+        elif o["op"] in ("add", "remove", "update") and st["err"] is None:
+            for u in sorted(pending):
+                out.append("class:%s_between_edits" % u)
+            pending = set()
     # queries judged where the first version abstained
     nang = nst = 0
     for o, st in zip(case["ops"], obs["steps"]):
@@ -939,18 +1582,20 @@ def _class_features(case, obs):
 
 def shrink(case, kind):
     """drop operations greedily while the same failure kind is still reported on the implementation"""
+    base = {k: v for k, v in case.items() if k not in ("ops", "small_scope")}
+
     def bad(c):
         try:
             return any(f["kind"] == kind for f in oracle(c, run_impl(c)))
         except Exception:
             return False
     ops = list(case["ops"])
-    if not bad({"ops": ops}):
+    if not bad({**base, "ops": ops}):
         return case
     i = len(ops) - 1
     while i >= 0:
         cand = ops[:i] + ops[i + 1:]
-        if bad({"ops": cand}):
+        if bad({**base, "ops": cand}):
             ops = cand
         i -= 1
-    return {"ops": ops}
+    return {**base, "ops": ops}
